@@ -84,5 +84,15 @@ Fixpoint go_count_from {S R} (k : nat) (i : Z) (f : Z -> S -> ctl S R) (s : S) :
   end.
 Definition go_count {S R} (a n : Z) (f : Z -> S -> ctl S R) (s : S) : ctl S R := go_count_from (Z.to_nat (n - a)) a f s.
 
+(* map[K]V with an integer key type: association list, at most one entry per key, in order of first insertion
+   (Go's iteration order is unspecified: ranging over a map is outside the subset) *)
+Fixpoint go_map_get {V} (m : list (Z * V)) (k : Z) (d : V) : V :=
+  match m with [] => d | (k', v) :: r => if k' =? k then v else go_map_get r k d end.
+Fixpoint go_map_set {V} (m : list (Z * V)) (k : Z) (v : V) : list (Z * V) :=
+  match m with [] => [(k, v)] | (k', v') :: r => if k' =? k then (k, v) :: r else (k', v') :: go_map_set r k v end.
+
+(* make([]T, n): n zero values *)
+Definition go_make {A} (n : Z) (d : A) : list A := repeat d (Z.to_nat n).
+
 (* the representation invariant of []byte / string values *)
 Definition bytes_ok (l : list N) : Prop := Forall (fun b => (b < 256)%N) l.
